@@ -128,6 +128,9 @@ func Load(repoDir string, overlay map[string][]byte) (*Ctx, error) {
 		if !c.inRepo(fn) {
 			continue
 		}
+		if s := fn.Synthetic; s != "" && (strings.Contains(s, "wrapper") || strings.Contains(s, "thunk") || strings.Contains(s, "bound method")) {
+			continue // compiler-generated forwarding code, no source of its own
+		}
 		c.Funcs = append(c.Funcs, fn)
 	}
 	sort.Slice(c.Funcs, func(i, j int) bool {
